@@ -668,6 +668,9 @@ func init() {
 			{"marshalOutline", "pkg/minijson/util.go", "MarshalStringMapInferred"},
 			{"writeInferredOutline", mj, "JsonObjectBuilder.WriteInferred"},
 			{"writeIntOutline", mj, "JsonObjectBuilder.WriteInt"},
+			{"writeKeyOutline", mj, "JsonObjectBuilder.writeKey"},
+			{"writeStringOutline", mj, "JsonObjectBuilder.WriteString"},
+			{"writeLiteralOutline", mj, "JsonObjectBuilder.WriteLiteral"},
 			{"escapeOutline", mj, "escape"},
 			{"regexTableOutline", "pkg/matchers/fastregex/re2.go", "createGroupNameTable"},
 		} {
